@@ -290,7 +290,7 @@ def gen_trace(seed: int, tier: str) -> dict:
         xf.append({"kind": "ids", "mode": rs.choice(["gaps", "high", "dups", "nonnumeric", "names", "mixed", "slideids-max",
                                                      "slideids-gaps", "slideids-max"]), "seed": rs.randint(0, 999)})
     if rs.random() < 0.3:
-        xf.append({"kind": "rename_slides", "mode": rs.choice(["reverse", "rotate", "gaps", "shuffle"]), "seed": rs.randint(0, 99)})
+        xf.append({"kind": "rename_slides", "mode": rs.choice(["reverse", "rotate", "gaps", "shuffle", "lastfits", "firstbig"]), "seed": rs.randint(0, 99)})
     if xf:
         start["xform"] = xf
     turbo = r.random() < 0.25
